@@ -226,6 +226,7 @@ typedef FSM::Transition Transition;
 // defined after the state classes (FSM::Instance needs them complete)
 static unsigned machActive();
 static bool contextIsOwnPtr(const void* ctxObjectOrPointee);
+static bool prevMatches(const Transition& t);
 
 enum MethodId { M_entryGuard, M_enter, M_reenter, M_preUpdate, M_update, M_postUpdate, M_preReact, M_react, M_postReact,
 	M_query, M_exitGuard, M_exit, M_planSucceeded, M_planFailed };
@@ -388,7 +389,16 @@ static void printCurrent(PlanControlX& c) { printTr(c.currentTransition()); }
 static void printPending(ConstControlX&) { std::printf("~"); }
 static void printPending(PlanControlX&) { std::printf("~"); }
 static void printPending(GuardControlX& c) { printTr(c.pendingTransition()); }
-static void printCPlan(ConstControlX&) { std::printf("~"); }
+static std::string machinePlanStr();
+static void printCPlan(ConstControlX& c) {
+	std::printf("~");
+#if CFG_PLANS
+	// the read-only view a const control hands out shows the machine's plan
+	if (planStr(c.plan()) != machinePlanStr()) std::printf(" FAIL:plan-const-control-view-differs");
+#else
+	(void) c;
+#endif
+}
 static void printCPlan(PlanControlX& c) {
 #if CFG_PLANS
 	printPlanBoth(c.plan());
@@ -426,6 +436,9 @@ static void deliver(MethodId m, unsigned sid, int layer, TControl& c) {
 	if (!contextIsOwn(c.context())) std::printf("FAIL: control.context() is not the machine's own context object (%%s)\n", key);
 	if (!contextIsOwn(c._())) std::printf("FAIL: control._() is not the machine's own context object (%%s)\n", key);
 	if (altBad) std::printf("FAIL: control.isActive<TState>() / stateId<TState>() disagree with the id-based forms (%%s)\n", key);
+#if CFG_HISTORY
+	if (!prevMatches(c.previousTransitions())) std::printf("FAIL: control.previousTransitions() is not the machine's previousTransition() (%%s)\n", key);
+#endif
 	// scripted actions
 	auto it = g_script.find(key);
 	if (it == g_script.end()) return;
@@ -460,6 +473,20 @@ struct Inj : FSM::State {
 typedef FSM::Instance Instance;
 static Instance* g_cur = nullptr;
 static unsigned machActive() { return g_cur ? static_cast<unsigned>(g_cur->activeStateId()) : 999u; }
+static std::string machinePlanStr() {
+#if CFG_PLANS
+	return g_cur ? planStr(g_cur->plan()) : std::string("?");
+#else
+	return std::string();
+#endif
+}
+static bool prevMatches(const Transition& t) {
+#if CFG_HISTORY
+	return g_cur && &t == &g_cur->previousTransition();     // the control hands out the machine's own record
+#else
+	(void) t; return true;
+#endif
+}
 static bool contextIsOwnPtr(const void* p) {
 #if CTX_KIND == 0
 	return g_cur && p == &g_cur->context();            // the machine's own copy
@@ -557,6 +584,10 @@ static Instance* construct(unsigned i, bool logger, int fill) {
 #if CFG_LOG
 	Logger* lg = logger ? &g_logger : nullptr;
 #if CTX_KIND == 2
+#if CFG_MANUAL
+	// pointer context: constructed without one, attached afterwards (nothing runs before enter())
+	if (fill & 1) { Instance* m = new (g_buf[i]) Instance{nullptr, lg}; m->setContext(&g_ctx); return m; }
+#endif
 	return new (g_buf[i]) Instance{&g_ctx, lg};
 #elif CTX_KIND == 0
 	// context held by value: both constructor overloads (lvalue / rvalue context) must behave alike
@@ -568,6 +599,9 @@ static Instance* construct(unsigned i, bool logger, int fill) {
 #else
 	(void) logger;
 #if CTX_KIND == 2
+#if CFG_MANUAL
+	if (fill & 1) { Instance* m = new (g_buf[i]) Instance{}; m->setContext(&g_ctx); return m; }
+#endif
 	return new (g_buf[i]) Instance{&g_ctx};
 #elif CTX_KIND == 0
 	if (fill & 1) return new (g_buf[i]) Instance{Ctx{g_ctx}};
